@@ -293,6 +293,7 @@ def flush_loop():
             H("C07/inv-log-grows", "wlen() >= old(wlen())"),
         ],
         modifies=["message_buffer.set_messages[...]"] + GHOST_LOG + ["ghost.wcnt"],
+        calls="send",
     )
 
 
